@@ -3,6 +3,7 @@ from engine import effects
 from engine import guards as G
 from engine import mir
 from . import common as K
+from . import detectors as DET
 from .common import A, fshort
 
 EXPLANATION = (
@@ -201,6 +202,7 @@ def ob_forward(run, oid):
 
 
 def check(run):
+    DET.ob_state_mutations(run, "O16.6", ['disseminator::rotor::Rotor', 'disseminator::turbine::Turbine'], 'routing state (samplers, caches) is fixed after construction')
     ob_no_ambient(run, "O16.1", "lib")
     if run.tier == "thorough":
         ob_no_ambient(run, "O16.1b", "bins")
